@@ -52,11 +52,13 @@ Definition dec (k : Z) : list byte :=
 Definition all_digits (s : list byte) : bool :=
   match s with [] => false | _ => forallb (fun c => (N.leb 48 c && N.leb c 57)%bool) s end.
 
-Inductive outcome := Key (k : Z) | NoKey | Panics.
+(* [Rejected]: answered with an error, selection unchanged.  [Panics]: the client task
+   dies (kept in the type so that the correspondence can report it; no path produces it). *)
+Inductive outcome := Key (k : Z) | NoKey | Rejected | Panics.
 
-(* try_execute_command: value.parse::<i64>().unwrap() *)
+(* try_execute_command: match value.parse::<i64>() { Ok(k) => set_sharding_key(k), Err(_) => InvalidShardingKey } *)
 Definition path_set_key (s : list byte) : outcome :=
-  if all_digits s then match parse_i64 s with Some k => Key k | None => Panics end else NoKey.
+  if all_digits s then match parse_i64 s with Some k => Key k | None => Rejected end else NoKey.
 (* comment regex / SQL literal: .parse::<i64>().ok() / match Err => ignore *)
 Definition path_comment (s : list byte) : outcome :=
   if all_digits s then match parse_i64 s with Some k => Key k | None => NoKey end else NoKey.
@@ -95,3 +97,25 @@ Record addr := { a_id : N; a_shard : N; a_role : N }.
 Definition candidates (role : option N) (sh : N) (addrs : list addr) : list addr :=
   filter (fun a => N.eqb (a_shard a) sh)
          (filter (fun a => match role with None => true | Some r => N.eqb (a_role a) r end) addrs).
+
+(** Bind with several parameters (infer_shard_from_bind): every parameter is consumed;
+    those whose 1-based position is a sharding-key placeholder are decoded by format.
+    [None] is a NULL parameter (length -1).  Format codes: none = all text, one = applies
+    to all, otherwise one per parameter. *)
+Definition fmt_of (fmts : list bool) (i : nat) : bool :=
+  match fmts with [] => false | [f] => f | _ => nth i fmts false end.
+
+Definition decode_param (binary : bool) (p : option (list byte)) : outcome :=
+  let bs := match p with Some bs => bs | None => [] end in
+  if binary then path_bind_bin bs else path_bind_text bs.
+
+Fixpoint bind_keys_from (i : nat) (ph : list nat) (fmts : list bool) (params : list (option (list byte))) : list Z :=
+  match params with
+  | [] => []
+  | p :: r =>
+      let rest := bind_keys_from (S i) ph fmts r in
+      if existsb (Nat.eqb (S i)) ph
+      then match decode_param (fmt_of fmts i) p with Key k => k :: rest | _ => rest end
+      else rest
+  end.
+Definition bind_keys := bind_keys_from 0.
